@@ -369,6 +369,90 @@ fn part3(st: &mut Stats) {
     }
 }
 
+/// Part 5 — degraded answers must not be cached. With the cold tier's circuit breaker open (three
+/// consecutive cold-tier failures: finite-looking requests the cold tier rejects), a timed search
+/// answers from the recent-write tier alone; the statement exempts that answer from completeness,
+/// but if it were STORED, every later search sharing the cache (the sync and batch paths never
+/// look at the breaker) would be served an answer no fresh search could return. For each metric x
+/// k x position of the recent write: open the breaker, run the degraded timed search, then ask
+/// again through the sync path and through the batch path; a CacheHit must be a valid fresh top-k.
+fn part5(st: &mut Stats) {
+    use crate::c06::{check_results, true_distance, SearchCheck};
+    let rt = tokio::runtime::Builder::new_current_thread().enable_all().build().unwrap();
+    for metric in ["euclidean", "cosine", "inner_product"] {
+        for k in [1usize, 2, 3] {
+            for hot_near in [false, true] {
+                let cfg = TeCfg { strategy: "lru".into(), l1a_capacity: 4, hot_soft: 16, hot_hard: 32, metric: metric.into(), dim: 3, qcache_capacity: 8, qcache_threshold: 1.0, hnsw_capacity: 64 };
+                let te = Te::new(&cfg);
+                let m = cfg.metric();
+                let mut model: BTreeMap<u64, Vec<f32>> = BTreeMap::new();
+                let q = vec![1.0f32, 0.2, 0.1];
+                for id in 1..=6u64 {
+                    let a = 0.25 * id as f32;
+                    let v = vec![a.cos(), a.sin(), 0.1 * id as f32];
+                    if te.engine.insert(id, v.clone(), Default::default()).is_ok() {
+                        model.insert(id, v);
+                    }
+                }
+                let _ = te.engine.flush_hot_tier(true);
+                let hv = if hot_near { vec![0.9f32, 0.5, 0.3] } else { vec![-1.0f32, 0.3, 2.0] };
+                if te.engine.insert(100, hv.clone(), Default::default()).is_ok() {
+                    model.insert(100, hv);
+                }
+                // open the cold tier's breaker: a query the cold tier rejects, three times
+                let bad = vec![f32::NAN, 0.0, 0.0];
+                for _ in 0..4 {
+                    let _ = rt.block_on(te.engine.knn_search_with_timeouts_with_ef(&bad, k, None));
+                }
+                let degraded = rt.block_on(te.engine.knn_search_with_timeouts_with_ef(&q, k, None));
+                st.kscope_cases += 1;
+                let mut all: Vec<(f64, u64)> = model.iter().map(|(id, v)| (true_distance(m, &q, v), *id)).collect();
+                all.sort_by(|a, b| a.partial_cmp(b).unwrap());
+                let none = BTreeSet::new();
+                let sc = SearchCheck { metric: m, model: &model, hot_ids: &none };
+                let mut judge = |entry: &str, served: &[kyrodb_engine::SearchResult], path: String, st: &mut Stats| {
+                    if path != "CacheHit" {
+                        return;
+                    }
+                    st.cache_hits += 1;
+                    st.hits_checked += 1;
+                    let mut bad: Option<String> = None;
+                    if let Err((sym, d)) = check_results(&sc, &q, k, served, true) {
+                        bad = Some(format!("{sym}: {d}"));
+                    } else if served.len() != k.min(all.len()) {
+                        bad = Some(format!("served {} results, a fresh search returns {}", served.len(), k.min(all.len())));
+                    } else if let Some(last) = served.last() {
+                        let kth = last.distance as f64;
+                        let ids: BTreeSet<u64> = served.iter().map(|r| r.doc_id).collect();
+                        for (d, id) in &all {
+                            if !ids.contains(id) && *d + 1e-4 * d.abs().max(1.0) < kth {
+                                bad = Some(format!("doc {id} at {d} is closer than the served k-th at {kth}"));
+                                break;
+                            }
+                        }
+                    }
+                    if let Some(detail) = bad {
+                        st.viol.push((
+                            format!("C07|degraded|answer-computed-with-the-cold-tier-breaker-open-served-from-cache|{entry}|{metric}"),
+                            json!({"engine":"seqmc","check":"C07","part":5,"metric":metric,"k":k,"recent_write_near_the_query":hot_near,"entry":entry,"detail":detail,
+                                   "degraded_answer": degraded.as_ref().ok().map(|(r, p)| (r.iter().map(|x| x.doc_id).collect::<Vec<_>>(), format!("{p:?}"))),
+                                   "served": served.iter().map(|r| (r.doc_id, r.distance)).collect::<Vec<_>>(), "brute_force": all}),
+                        ));
+                    }
+                };
+                if let Ok((served, path)) = te.engine.knn_search_with_ef_detailed_scoped(&q, k, None, 0) {
+                    judge("knn_search", &served, format!("{path:?}"), st);
+                }
+                if let Ok(allb) = te.engine.knn_search_batch_with_ef_detailed(&[q.clone()], k, None) {
+                    if let Some((served, path)) = allb.first() {
+                        judge("knn_search_batch", served, format!("{path:?}"), st);
+                    }
+                }
+            }
+        }
+    }
+}
+
 fn merge(t: &mut Stats, s: Stats) {
     t.histories += s.histories;
     t.searches += s.searches;
@@ -458,6 +542,7 @@ pub fn run(tier: &str, replay: Option<&str>) -> i32 {
     }
     merge(&mut tot, part2(tier));
     part3(&mut tot);
+    part5(&mut tot);
     // part 4: race programs in worker processes
     let rres = vcore::par::run_workers(vcore::par::jobs(), &[]);
     let mut rt: BTreeMap<&str, u64> = BTreeMap::new();
